@@ -6,7 +6,7 @@ Results are written to seeded/RESULTS.json (evidence files written during these 
 import os, sys, json, subprocess, argparse, shutil, time
 VERIF = os.path.dirname(os.path.dirname(os.path.abspath(__file__)))
 REPO = "/repo"
-ap = argparse.ArgumentParser(); ap.add_argument("--only"); ap.add_argument("--tier", default="quick"); ap.add_argument("--checks"); ap.add_argument("--timeout", type=int, default=5400)
+ap = argparse.ArgumentParser(); ap.add_argument("--only"); ap.add_argument("--tier", default="quick"); ap.add_argument("--checks"); ap.add_argument("--timeout", type=int, default=5400); ap.add_argument("--job"); ap.add_argument("--shard-filter"); ap.add_argument("--tag")
 a = ap.parse_args()
 sd = os.path.join(VERIF, "seeded")
 names = sorted(d for d in os.listdir(sd) if os.path.exists(os.path.join(sd, d, "patch.diff")))
@@ -28,13 +28,13 @@ for n in names:
             if os.path.exists(evf): shutil.copy(evf, bak)
             t0 = time.time()
             try:
-                p = subprocess.run(["./check", c, "--tier", a.tier], cwd=VERIF, capture_output=True, text=True, timeout=a.timeout, env=dict(os.environ, OVM_NO_TV="1"))
+                p = subprocess.run(["./check", c, "--tier", a.tier] + (["--job", a.job] if a.job else []) + (["--shard-filter", a.shard_filter] if a.shard_filter else []), cwd=VERIF, capture_output=True, text=True, timeout=a.timeout, env=dict(os.environ, OVM_NO_TV="1"))
                 out, rc = p.stdout, p.returncode
             except subprocess.TimeoutExpired as e:
                 out, rc = (e.stdout or b"").decode(errors="replace") if isinstance(e.stdout, bytes) else (e.stdout or ""), -9
             lines = [l for l in out.splitlines() if l.startswith(("VIOLATION", "KNOWN-FINDING", "NOT-COVERED", "TOOL-ERROR", "  query="))]
             summary = [l for l in out.splitlines() if l.startswith(c + " ")][-1:] 
-            results.setdefault(n, {})[c + ":" + a.tier] = dict(exit=rc, caught=(rc == 1), violations=[l for l in lines if l.startswith(("VIOLATION", "  query="))][:6],
+            results.setdefault(n, {})[c + ":" + a.tier + ((":" + a.tag) if a.tag else "")] = dict(job=a.job, shard_filter=a.shard_filter, exit=rc, caught=(rc == 1), violations=[l for l in lines if l.startswith(("VIOLATION", "  query="))][:6],
                                                               not_covered=len([l for l in lines if l.startswith("NOT-COVERED")]), tool_errors=[l[:300] for l in lines if l.startswith("TOOL-ERROR")][:4],
                                                               summary=summary, wall_s=round(time.time() - t0))
             print(n, c, "exit", rc, "CAUGHT" if rc == 1 else "missed", summary)
